@@ -33,7 +33,7 @@ MANIFEST = {
 }
 
 _N = {"quick": 5, "thorough": 6}
-_NM = {"quick": 3, "thorough": 4}
+_NM = {"quick": 4, "thorough": 4}  # (4: the smallest diamond with members placed on every class)
 _NX = {"quick": 3, "thorough": 4}
 
 
@@ -129,6 +129,9 @@ V_SHAPES = {
     "through-import-alias": {"v7a.py": "class Base:\n    def greet(self): ...\n    class N:\n        def n(self): ...\nclass Child(Base):\n    def own(self): ...\n",
                              "v7b.py": "from v7a import Child\nfrom v7a import Child as Kid\nclass Local(Child):\n    def loc(self): ...\n"},
     "alias-of-alias": {"v7a.py": "class Base:\n    def greet(self): ...\nclass Child(Base):\n    pass\n", "v7b.py": "from v7a import Child\n", "v7c.py": "from v7b import Child as K\nclass L(K):\n    pass\n"},
+    # a base written with three dotted parts (module of a package imported as `import pkg.mod`)
+    "dotted-base": {"v7p/__init__.py": "", "v7p/core.py": "class Root:\n    def r(self): ...\nclass Base(Root):\n    def b(self): ...\n",
+                    "v7q.py": "import v7p.core\nclass C(v7p.core.Base):\n    def c(self): ...\nclass D(C):\n    pass\n"},
     "nested-two-levels": {"v7a.py": "class A:\n    class I:\n        class J:\n            def deep(self): ...\nclass B(A):\n    pass\nclass C(B):\n    class I(B.I):\n        pass\n"},
 }
 
@@ -479,7 +482,7 @@ def _run_case(griffe, acc, case):
         import types
 
         files = V_SHAPES[case[1]]
-        modnames = sorted(f.removesuffix(".py") for f in files)
+        modnames = sorted(f.removesuffix(".py").removesuffix("/__init__").replace("/", ".") for f in files)
         with sandbox.scratch_dir("c07v") as d, sandbox.interpreter_state():
             sandbox.write_tree(d, files)
             sys.path.insert(0, d)
@@ -508,7 +511,7 @@ def _run_case(griffe, acc, case):
             for k in [k for k in sys.modules if k in modnames]:
                 del sys.modules[k]
             loader = griffe.GriffeLoader(search_paths=[d], allow_inspection=False)
-            for mn in modnames:
+            for mn in sorted({m.split(".")[0] for m in modnames}):
                 loader.load(mn)
             loader.resolve_aliases(implicit=True)
             outs = []
